@@ -182,6 +182,28 @@ class Run(RunBase):
         self.pending = set()
         self.last_mut = "none"
         self.via_scenario = {la.lanelet_id for la in self.sc.lanelet_network.lanelets}
+        self.shadow = None  # the sibling instance after a fork (deepcopy / pickle that keeps the original alive)
+
+    _FIELDS = ("sc", "standalone", "hist", "via_scenario")
+
+    def _swap(self):
+        cur = {f: getattr(self, f) for f in self._FIELDS}
+        for f in self._FIELDS:
+            setattr(self, f, self.shadow[f])
+        self.shadow = cur
+
+    def _check_shadow(self):
+        """Sibling isolation: whatever was done to this instance, the other one still answers like a fresh object
+        built from ITS primary data."""
+        if self.shadow is None:
+            return
+        self._swap()
+        try:
+            self._in_shadow = True
+            self._sweep()
+        finally:
+            self._in_shadow = False
+            self._swap()
 
     # ---------------------------------------------------------------- helpers
     def _net_ids(self):
@@ -224,11 +246,19 @@ class Run(RunBase):
         if k in ("q_light", "set_cycle", "set_offset", "replace_cycle"):
             lt = sc.lanelet_network.find_traffic_light_by_id(op["id"])
             return lt is not None and lt.traffic_light_cycle is not None
+        if k == "swap":
+            return self.shadow is not None
         return k in ("q_scn_occ", "q_scn_states", "q_pos", "q_shape", "tr_scenario", "tr_network", "restart", "sweep")
 
     # ---------------------------------------------------------------- the oracle
     def _cmp(self, kind, got, exp, what):
         if not approx_equal(got, exp, TOL):
+            if getattr(self, "_in_shadow", False):
+                raise Violation(f"C11/sibling-affected/{kind}<-{self.last_mut}",
+                                f"{what} of the OTHER copy (made by an earlier deepcopy / pickle): it answers "
+                                f"{_short(got)} but an object freshly built from its own primary data answers "
+                                f"{_short(exp)} after {self.last_mut} on this copy",
+                                {"got": _jsonable(got), "fresh": _jsonable(exp)})
             raise Violation(f"C11/stale/{kind}<-{self.last_mut}",
                             f"{what}: the mutated object answers {_short(got)} but an object freshly built from its "
                             f"current primary data answers {_short(exp)} (last mutation: {self.last_mut})",
@@ -419,8 +449,15 @@ class Run(RunBase):
     # ---------------------------------------------------------------- ops
     def apply(self, op):
         out = getattr(self, "_op_" + op["op"])(op)
-        self.note_state([self.last_mut, sorted(self.warm), self._net_ids()])
+        if self.shadow is not None and op["op"] not in ("swap",) and not op["op"].startswith("q_"):
+            self._check_shadow()
+        self.note_state([self.last_mut, sorted(self.warm), self._net_ids(), self.shadow is not None])
         return out
+
+    def _op_swap(self, op):
+        self._swap()
+        self.probe("continued-on-the-other-copy")
+        return "ok"
 
     # queries -----------------------------------------------------------
     def _op_q_occ(self, op):
@@ -527,10 +564,30 @@ class Run(RunBase):
 
     def _op_set_trajectory(self, op):
         ob = self._obstacle(op["id"])
-        states = [build.build_state(s) for s in op["states"]]
+        variant = op.get("variant", "new")
+        if variant == "new":
+            states = [build.build_state(s) for s in op["states"]]
 
-        def f():
-            ob.prediction.trajectory = Trajectory(states[0].time_step, states)
+            def f():
+                ob.prediction.trajectory = Trajectory(states[0].time_step, states)
+        elif variant == "shifted":
+            # the same motion somewhere else: every attribute but the position stays as it is
+            old = ob.prediction.trajectory
+            states = [rebuild_state(s) for s in old.state_list]
+            for s in states:
+                s.position = np.array(s.position, dtype=float) + np.array(op["d"], dtype=float)
+
+            def f():
+                ob.prediction.trajectory = Trajectory(old.initial_time_step, states)
+            self.probe("trajectory-replaced-by-shifted-copy")
+        else:
+            # the caller takes the trajectory object, transforms it and assigns it again
+            tr = ob.prediction.trajectory
+
+            def f():
+                tr.translate_rotate(np.array(op["d"], dtype=float), op.get("a", 0.0))
+                ob.prediction.trajectory = tr
+            self.probe("trajectory-object-transformed-and-reassigned")
         r = self._try("prediction.trajectory=", f)
         self._after([("obstacle", op["id"])])
         return r
@@ -637,11 +694,17 @@ class Run(RunBase):
         self.faults["F-restart"] += 1
         if self.warm:
             self.probe("restart-with-warm-cache")
+        keep = bool(op.get("keep"))
+        if keep:
+            # fork: the original stays alive next to the copy; from now on both must stay correct
+            self.shadow = {"sc": self.sc, "standalone": self.standalone, "hist": copy.deepcopy(self.hist),
+                           "via_scenario": set(self.via_scenario)}
+            self.probe("fork-keeps-original")
         if op["how"] == "pickle":
             self.sc, self.standalone = pickle.loads(pickle.dumps((self.sc, self.standalone)))
         else:
             self.sc, self.standalone = copy.deepcopy((self.sc, self.standalone))
-        self.last_mut = self.last_mut + "+restart"
+        self.last_mut = self.last_mut.split("+")[0] + "+restart"
         self._after([("all_obstacles", None), ("network", None)] + [("standalone", k) for k in sorted(self.standalone)])
         return "ok"
 
@@ -781,7 +844,14 @@ def _mutator(rng, run, cfg):
                 yield {"op": k, "id": oid, "shape": gen.gen_shape(rng, ("rect", "circ", "poly"))}
             else:
                 t0 = run._obstacle(oid).initial_state.time_step + 1
-                yield {"op": k, "id": oid, "states": _traj_states(rng, t0, rng.randint(1, 5))}
+                r = rng.random()
+                if r < 0.5:
+                    yield {"op": k, "id": oid, "states": _traj_states(rng, t0, rng.randint(1, 5))}
+                elif r < 0.75:
+                    yield {"op": k, "id": oid, "variant": "shifted", "d": [rng.uniform(-9, 9), rng.uniform(-9, 9)]}
+                else:
+                    yield {"op": k, "id": oid, "variant": "reassigned", "d": [rng.uniform(-9, 9), rng.uniform(-9, 9)],
+                           "a": rng.choice([0.0, 0.7])}
         elif k == "update_initial" and dyn:
             oid = rng.pick(dyn)
             ob = run._obstacle(oid)
@@ -840,7 +910,10 @@ def _mutator(rng, run, cfg):
 
 def _restarter(rng, run, cfg):
     while True:
-        yield {"op": "restart", "how": rng.pick(["pickle", "deepcopy"])}
+        if run.shadow is not None and rng.chance(0.5):
+            yield {"op": "swap"}
+        else:
+            yield {"op": "restart", "how": rng.pick(["pickle", "deepcopy"]), "keep": rng.chance(0.5)}
 
 
 QUERIES = ["q_occ", "q_state", "q_scn_occ", "q_scn_states", "q_poly", "q_dist", "q_pos", "q_shape", "q_light", "sweep"]
@@ -854,7 +927,9 @@ class C11(Property):
     id = "C11"
     title = "Derived data never goes stale under mutation"
     tiers = {"quick": {"runs": 1600, "wall": 240, "chunk": 10}, "thorough": {"runs": 60000, "wall": 1700, "chunk": 25}}
-    expected_probes = ["restart-with-warm-cache", "history-truncation-hit",
+    expected_probes = ["restart-with-warm-cache", "history-truncation-hit", "fork-keeps-original",
+                       "continued-on-the-other-copy", "trajectory-replaced-by-shifted-copy",
+                       "trajectory-object-transformed-and-reassigned",
                        "cell:occupancy_at_time<-translate_rotate[scenario]",
                        "cell:occupancy_at_time<-translate_rotate[obstacle]",
                        "cell:occupancy_at_time<-translate_rotate[prediction]",
@@ -964,6 +1039,8 @@ class C11(Property):
                 yield dict(op, d=[0.0, 0.0])
         if op["op"] == "restart" and op["how"] != "deepcopy":
             yield dict(op, how="deepcopy")
+        if op["op"] == "restart" and op.get("keep"):
+            yield dict(op, keep=False)
         if op["op"] == "q_pos" and len(op["pts"]) > 1:
             for i in range(len(op["pts"])):
                 yield dict(op, pts=op["pts"][:i] + op["pts"][i + 1:])
